@@ -48,6 +48,8 @@ type c06Hop struct {
 	I     int       `json:"i,omitempty"`
 	KC    bool      `json:"kc,omitempty"`
 	Orc   c06Oracle `json:"orc"`
+	// Fails (C06 only): indices of this step's Storage calls that return an injected error
+	Fails []int `json:"fails,omitempty"`
 }
 type c06Cfg struct {
 	N       int    `json:"n"`
@@ -134,9 +136,9 @@ type c06World struct {
 	// double's log. onGenKey / onIssued: extra notifications used by the process-death driver.
 	// rawGet / rawPut / snapFn: raw access to the storage contents for the harness itself (planting an
 	// OCSP staple, decoding the stored files); nil = the memory double
-	rawGet func(key string) ([]byte, bool)
-	rawPut func(key string, val []byte)
-	snapFn func(o *c06Obs)
+	rawGet   func(key string) ([]byte, bool)
+	rawPut   func(key string, val []byte)
+	snapFn   func(o *c06Obs)
 	sink     func(kind, key string)
 	onGenKey func(id int, digest string)
 	onIssued func(ser int, serial, stapleKey string)
